@@ -565,6 +565,11 @@ class Ctx:
             log("[%s]   %d theorems checked" % (self.pid, len(self.discharged)))
             if self.tier == "thorough" and os.environ.get("VERIF_NO_COQCHK") != "1":
                 c = coqchk_props(prop_file)
+                if not c["ok"]:
+                    # another run of the same property may have removed the compiled file in between: rebuild once and retry
+                    r2 = check_props(prop_file)
+                    if r2["ok"]:
+                        c = coqchk_props(prop_file)
                 self.trusted.append("coqchk -o on GS.%s (independent checker, this run): %s; axioms %s"
                                     % (prop_file[:-2].replace("/", "."), "ok" if c["ok"] else "FAILED", c["axioms"]))
                 log("[%s]   coqchk: %s" % (self.pid, "ok, axioms %s" % c["axioms"] if c["ok"] else "FAILED"))
